@@ -66,6 +66,27 @@ def run(ctx, proofs_ok):
                 return
             if vlib.correspond_stream(ctx, hft, feed_stream(ctx, fams, n, 17), f"r{fi}-{i}", "closed loop primary -> Encode/DecodeOp -> ApplyPatch on a replica: " + "+".join(fams)):
                 return
+    # pattern filtering: a narrow watcher next to the `*` watcher
+    pats_pool = [["t1"], ["t?"], ["t2", "l1"], ["*1"], ["[st]*"], ["z3", "t3"], ["w"], ["l2"], ["s*"], ["z1"]]
+    for i in range(6 if q else 40):
+        fams = ctx.rng.choice([["set"], ["list"], ["key", "str"], ["zset"], ["set", "list", "key", "str"]])
+        pats = ctx.rng.choice(pats_pool)
+        ops = gen_api.stream(ctx.rng, fams, 150 if q else 400, dump_every=0, realtime=False)
+        out = ["open a mem", "watch 2a 2a2f2a", "watchp " + " ".join(p.encode().hex() for p in pats)]
+        for op in ops[1:]:
+            if op == "dump" or op.startswith("sleep"):
+                continue
+            out += [sanitize(op), "feedp"]
+        if vlib.correspond_stream(ctx, hft, out, f"p{i}", "a watcher with narrow patterns receives exactly the matching records of the * watcher, in order"):
+            return
+    # the implementation's own verdict (independent of the model)
+    import glob as _g
+    for f in _g.glob(f"{ctx.work}/p*.g"):
+        for line in open(f):
+            if line.startswith("feedp") and "MISMATCH" in line:
+                vlib.record_violation(ctx, "pattern-filter", {"impl": [line.strip()[:2000]], "ops": [], "model": [],
+                                      "explain": "the watcher with narrow patterns did not receive exactly the matching records of the * watcher"})
+                return
 
 
 def split_corpus(ops):
